@@ -122,6 +122,9 @@ type Env struct {
 
 var gT *testing.T // the outer test, needed by synctest.Test
 
+// leakedWorlds counts worlds at whose end a goroutine of the code under test was still blocked.
+var leakedWorlds int64
+
 // inBubble runs fn inside a synctest bubble (fake clock, quiescence detection).
 // It reports a deadlock (every goroutine of the bubble durably blocked with the
 // root still running) instead of crashing.
@@ -129,7 +132,14 @@ func inBubble(fn func()) (deadlock bool, msg string) {
 	defer func() {
 		if p := recover(); p != nil {
 			s := fmt.Sprint(p)
-			if strings.Contains(s, "deadlock") && !strings.Contains(s, "has exited") {
+			if strings.Contains(s, "deadlock") && strings.Contains(s, "has exited") {
+				// every gate of the harness is open and the clock has run on (drain), so what is still
+				// blocked is a goroutine started by the code under test. No claimed property forbids a
+				// leaked goroutine as such: the world is not judged on it, only counted.
+				leakedWorlds++
+				return
+			}
+			if strings.Contains(s, "deadlock") {
 				deadlock, msg = true, s
 				return
 			}
